@@ -505,7 +505,11 @@ class Stream(AbstractStream):
     def _reset_thermo(self, thermo):
         if thermo is self._thermo: return
         self._thermo = thermo
-        self._imol.reset_chemicals(thermo.chemicals)
+        # The indexer may be shared (a proxy holds the same object) and already
+        # be indexed by the new chemicals; indexing it again would replace the
+        # flow rate data and detach the phase streams of whoever shares it.
+        if self._imol._chemicals is not thermo.chemicals:
+            self._imol.reset_chemicals(thermo.chemicals)
         self.reset_cache()
         if hasattr(self, '_streams'):
             for phase, stream in self._streams.items():
